@@ -3,7 +3,9 @@
    One function per loader function; every check that the Go loader or the public mutators it
    goes through (AddBus, AddNodeInterface, AddSentMessage, InsertSignal, SetStaticCANID,
    AddReceiver, AddValue, AssignAttribute, the new…FromEntity constructors) perform while a save
-   is loaded appears here as an explicit `Err`.  Where the Go code would dereference an absent
+   is loaded appears here as an explicit `Err`; so do the loader's own checks of sizes and counts
+   (message size against the bus, group size against the enclosing layout, group count against
+   the number of saved groups) that precede every allocation.  Where the Go code would dereference an absent
    sub-message the model returns `Err MissingField`.
 
    `now` stands for time.Now(), used for entities without a valid creation time.
@@ -267,7 +269,8 @@ Fixpoint first_flags (keys : list string) (seen : list string) : list bool :=
   | k :: r => if memb k seen then false :: first_flags r seen else true :: first_flags r (k :: seen)
   end.
 
-Fixpoint load_sig (ev : env) (ps : PSignal) : result sig :=
+(* `limit` is the size in bits of the layout the signal is going to be placed in *)
+Fixpoint load_sig (ev : env) (limit : Z) (ps : PSignal) : result sig :=
   match ps with
   | PSig pent pkind psend pstart pattrs pbody =>
       let kind := dec_sig_kind pkind in
@@ -294,12 +297,14 @@ Fixpoint load_sig (ev : env) (ps : PSignal) : result sig :=
                end
       | PSBMux psigs fixed count gsize pgroups =>
           if negb (kind =? 3) then Err InvalidOneof
+          else if gsize >? limit then Err TooBig
+          else if negb (Z.of_nat (List.length pgroups) =? count) then Err OutOfBounds
           else if count <? 0 then Err Negative
           else if count =? 0 then Err IsZero
           else if gsize <? 0 then Err Negative
           else if gsize =? 0 then Err IsZero
           else
-            do children <- mapM_flagged (load_sig ev) psigs (first_flags (map psig_key psigs) []);
+            do children <- mapM_flagged (load_sig ev gsize) psigs (first_flags (map psig_key psigs) []);
             do st <- mux_load_groups ev count gsize children fixed 0
                                      (repeat [] (Z.to_nat count), []) pgroups;
             do asg <- load_assigns (ev_attrs ev) pattrs;
@@ -323,7 +328,7 @@ Definition msg_insert_signal (ev : env) (bits : Z) (cur : list sig) (s : sig) (p
 
 Definition load_msg_signal (ev : env) (bits : Z) (sigmap : list (string * Z)) (cur : list sig) (ps : PSignal)
   : result (list sig) :=
-  do s <- load_sig ev ps;
+  do s <- load_sig ev bits ps;
   match assoc_pos (sig_id s) sigmap with
   | None => Err NotFound
   | Some pos => msg_insert_signal ev bits cur s pos
@@ -349,6 +354,7 @@ Definition load_receiver (ev : env) (sender : string * Z) (cur : list (string * 
 
 Definition load_msg (ev : env) (sender : string * Z) (pm : PMessage) : result msg :=
   do ent <- load_entity (pm_ent pm);
+  if pm_size pm >? 8 then Err TooBig else
   let sigmap := refs_map (match pm_payload pm with Some refs => refs | None => [] end) in
   do sigs <- foldM (load_msg_signal ev (pm_size pm * 8) sigmap) [] (pm_signals pm);
   do recs <- foldM (load_receiver ev sender) [] (pm_receivers pm);
